@@ -53,6 +53,8 @@ scen('regex-kept', lambda o: mk.class_src('K', ['d = Data(until_marker=re.compil
      [b'abXXX\x01', b'cdX\x02', b'X\x03'], [{}, {'d': b'qX'}])
 scen('regex-nonkept', lambda o: mk.class_src('K', ['d = Data(until_marker=re.compile(b"X+"))', 'z = Int(1)'], o),
      [b'abXXX\x01', b'cdX\x02', b'XX\x03'], [{}, {'d': b'q'}], tags=['regex-nonkept'])
+scen('regex-nonkept-seq', lambda o: mk.class_src('K', ['n = Int(1)', 'l = Data(until_marker=re.compile(b"X+")).repeated(n)', 'o = Data(until_marker=re.compile(b"Y+")).when(n)', 'z = Int(1)'], o),
+     [b'\x02abXXXcXqYY\x01', b'\x01dX\x59\x02', b'\x00\x03'], [{}], tags=['regex-nonkept'])
 scen('described', lambda o: mk.class_src('K', ["length = Int(1).describe(AutoLength('a'))", 'a = Data(length)', 'z = Int(1)'], o),
      [b'\x02ab\x01', b'\x00\x02', b'\x01q\x03'], [{}, {'a': b'xyz'}, {'length': 1, 'a': b'k'}])
 scen('two-levels', lambda o: SUB + mk.class_src('Mid', ['s = Ref(Sub)', 'm = Int(1)'], o) + mk.class_src('K', ['a = Ref(Sub)', 'b = Ref(Mid)', 'l = Ref(Sub).repeated(1)'], o),
